@@ -116,20 +116,23 @@ class ThreadWorker(Worker):
         self._child = threading.Thread(target=self._run, name=self.name)
         self._child.start()
         self._dead = False
-        self._startup_sync.wait()
+        while not self._startup_sync.wait(0.05):
+            if not self._child.is_alive():
+                # the child is gone before it could even report its identity - do not wait for it for ever
+                break
         assert self._tid == gettid(self._child)
         assert self._ident == self._child.ident
 
     # Children-side
     def _run(self):
-        assert self._tid != gettid()
-        self._tid = gettid()
-        self._ident = threading.get_ident()
-        if self._set_names:
-            setthreadtitle(self.name, self)
-
-        self._startup_sync.set()
         try:
+            assert self._tid != gettid()
+            self._tid = gettid()
+            self._ident = threading.get_ident()
+            if self._set_names:
+                setthreadtitle(self.name, self)
+
+            self._startup_sync.set()
             assert self.is_child
             self._init_child()
             self._result = (True, self.do_work())
@@ -137,6 +140,8 @@ class ThreadWorker(Worker):
             logger.exception('Exception occurred while running the main function')
             self._result = (False, e)
         finally:
+            # whatever happened, never leave the constructor waiting for a child which is gone
+            self._startup_sync.set()
             self._cleanup()
 
     def _cleanup(self):
